@@ -18,11 +18,14 @@ def main():
     ap.add_argument("--tier", default=os.environ.get("VERIF_TIER", "quick"))
     ap.add_argument("--seed", type=int, default=int(os.environ.get("VERIF_SEED", "1")))
     ap.add_argument("--replay")
+    ap.add_argument("--child-out")
     a = ap.parse_args()
     try:
         session = importlib.import_module(f"sessions.{a.pid.lower()}")
         if a.replay:
             sys.exit(session.replay(a.replay))
+        if a.child_out:
+            sys.exit(common.session_only(a.pid, session, a.tier, a.seed, a.child_out))
         sys.exit(common.run_check(a.pid, session, a.tier, a.seed))
     except common.Infra as e:
         print(f"[{a.pid}] infrastructure error: {e}", file=sys.stderr)
